@@ -2284,6 +2284,20 @@ impl<'i, R: XmlRead<'i>, E: EntityResolver> XmlReader<'i, R, E> {
     ///
     /// [`Text`]: PayloadEvent::Text
     /// [`CData`]: PayloadEvent::CData
+    /// Consumes all `DocType` events from the lookahead (capturing the entities
+    /// that they define), so a DOCTYPE cannot split a run of `Text` / `CData`
+    /// events into two consequent [`DeEvent::Text`] events
+    fn skip_doctypes(&mut self) -> Result<(), DeError> {
+        while let Ok(PayloadEvent::DocType(_)) = self.lookahead {
+            if let PayloadEvent::DocType(e) = self.next_impl()? {
+                self.entity_resolver
+                    .capture(e)
+                    .map_err(|err| DeError::Custom(format!("cannot parse DTD: {}", err)))?;
+            }
+        }
+        Ok(())
+    }
+
     fn drain_text(&mut self, mut result: Cow<'i, str>) -> Result<DeEvent<'i>, DeError> {
         loop {
             if self.current_event_is_last_text() {
@@ -2292,6 +2306,7 @@ impl<'i, R: XmlRead<'i>, E: EntityResolver> XmlReader<'i, R, E> {
 
             match self.next_impl()? {
                 PayloadEvent::Text(mut e) => {
+                    self.skip_doctypes()?;
                     if self.current_event_is_last_text() {
                         // FIXME: Actually, we should trim after decoding text, but now we trim before
                         e.inplace_trim_end();
@@ -2300,7 +2315,10 @@ impl<'i, R: XmlRead<'i>, E: EntityResolver> XmlReader<'i, R, E> {
                         .to_mut()
                         .push_str(&e.unescape_with(|entity| self.entity_resolver.resolve(entity))?);
                 }
-                PayloadEvent::CData(e) => result.to_mut().push_str(&e.decode()?),
+                PayloadEvent::CData(e) => {
+                    self.skip_doctypes()?;
+                    result.to_mut().push_str(&e.decode()?)
+                }
 
                 // SAFETY: current_event_is_last_text checks that event is Text or CData
                 _ => unreachable!("Only `Text` and `CData` events can come here"),
@@ -2316,13 +2334,17 @@ impl<'i, R: XmlRead<'i>, E: EntityResolver> XmlReader<'i, R, E> {
                 PayloadEvent::Start(e) => Ok(DeEvent::Start(e)),
                 PayloadEvent::End(e) => Ok(DeEvent::End(e)),
                 PayloadEvent::Text(mut e) => {
+                    self.skip_doctypes()?;
                     if self.current_event_is_last_text() && e.inplace_trim_end() {
                         // FIXME: Actually, we should trim after decoding text, but now we trim before
                         continue;
                     }
                     self.drain_text(e.unescape_with(|entity| self.entity_resolver.resolve(entity))?)
                 }
-                PayloadEvent::CData(e) => self.drain_text(e.decode()?),
+                PayloadEvent::CData(e) => {
+                    self.skip_doctypes()?;
+                    self.drain_text(e.decode()?)
+                }
                 PayloadEvent::DocType(e) => {
                     self.entity_resolver
                         .capture(e)
